@@ -6,6 +6,8 @@ from pathlib import Path
 root = Path("/verif")
 rows = []
 for d in sorted((root / "seeded").iterdir()):
+    if not (d / "meta.json").exists():
+        continue
     m = json.loads((d / "meta.json").read_text())
     caught = m["checks_that_report_it"]
     rules = []
